@@ -157,8 +157,9 @@ impl InputBuffer {
             last_chidx = chidx;
 
             let can_bow = if !next_bow {
-                // this char was forbidden by the previous one
-                next_bow = true;
+                // this char was forbidden by the previous one,
+                // and it forbids the next one as well if it is NOOOVBOW2 itself
+                next_bow = !cat.intersects(CategoryType::NOOOVBOW2);
                 false
             } else if cat.intersects(CategoryType::NOOOVBOW2) {
                 // this rule is stronger than the next one and must come before
